@@ -39,8 +39,9 @@ def rand_header(rng, case):
     nbits = int(rng.choice([1, 2, 4, 8, 16, 32]))
     nchans = int(rng.choice([8, 16, 64]))
     decs = [sexa(0, 30, 15.25, -1), sexa(0, 0, 7.5, -1), sexa(45, 59, 59.99, -1), sexa(0, 12, 1.0, 1), sexa(89, 0, 0.5, 1),
-            sexa(12, 34, 56.78, -1), 0.0]
-    ras = [sexa(0, 0, 1.5), sexa(23, 59, 59.9), sexa(12, 0, 0.0), sexa(5, 34, 31.97)]
+            sexa(12, 34, 56.78, -1), 0.0, sexa(22, 0, 52.1234, 1), sexa(29, 0, 28.1187, -1)]
+    ras = [sexa(0, 0, 1.5), sexa(23, 59, 59.9), sexa(12, 0, 0.0), sexa(5, 34, 31.97), sexa(5, 34, 31.94123), sexa(12, 0, 0.0049),
+           sexa(17, 45, 40.03642)]
     vals = dict(telescope_id=int(rng.choice([0, 1, 4, 6, 7, 8, 64])), machine_id=int(rng.choice([0, 1, 2, 7, 10])), data_type=1,
                 barycentric=0, pulsarcentric=0, ibeam=int(rng.integers(0, 14)), nbeams=int(rng.integers(1, 14)), nifs=1,
                 nchans=nchans, nbits=nbits, refdm=float(rng.choice([0.0, 12.5, 300.25])), foff=float(rng.choice([-1.0, -0.5, 0.25])),
